@@ -351,6 +351,19 @@ def run_case(case, g, tier, res):
         explore_case(res, h, tier, on_path=on_path)
     elif kind == "prefix":
         def h(c):
+            if bool(c.fresh_bool("empty_left_terminal")):
+                # an empty left terminal '[]' takes no prefix at all: any prefix with an open descriptor differs from it
+                ps = fresh_char("ps", "$<>")
+                text = "{[][<]CC[>], [$]CC[$]; [$][H], [<]O, [>]N[]}|gauss(50,5)|"
+                ptxt = SymStr.of("N[", ps, "]")
+                det = _det("missing or mismatching prefix rejected", lambda mv, c: text + " mode=3 prefix=" + text_of(c, mv, ptxt), {"mode": 3})
+                st = g.Stochastic(text, 0)
+                rng = SymRng()
+                from symx import gen
+                gen.install_observers(g, gen.Observer())
+                gen.DRAW_FN[0] = gen.symbolic_draw({}, 40)
+                pre = g.SmilesToken(ptxt, 0, 0).generate(rng=rng)
+                return expect_raise(c, lambda: st.generate(prefix=pre, rng=rng), "missing or mismatching prefix rejected", det)
             lt = fresh_char("lt", "$<>")
             has_id = c.fresh_bool("lt_id")
             ltid = fresh_char("ltid", "0123456789") if has_id else None
